@@ -4,8 +4,11 @@ import (
 	"context"
 	"errors"
 	"fmt"
+	"github.com/vimeo/dials/ptrify"
+	"io"
 	"math/rand/v2"
 	"reflect"
+	"strconv"
 	"strings"
 	"time"
 
@@ -250,6 +253,19 @@ func genWrap(seed uint64, faulty bool) *Scenario {
 	sc := &Scenario{Prop: "C20", Seed: seed, Faulty: faulty, GlobalCB: "instant", Shutdown: "cancel", MaxSteps: 8000}
 	w := &WrapSpec{Manglers: manglerLists[g.r.IntN(len(manglerLists))], InitID: g.id()}
 	w.Kind = []string{"twatch", "twatch", "tstatic", "blank-static", "blank-watch", "blank-twatch", "blank-only", "blank-inside-t"}[g.r.IntN(8)]
+	if g.pct(8) {
+		// one transforming decoder value shared by several sources that decode at the same time
+		w.Kind = "shared-decoder"
+		sc.Wrap = w
+		for c, n := 0, g.in(2, 3); c < n; c++ {
+			cl := ClientSpec{Name: fmt.Sprintf("dec%d", c), Kind: "decoder"}
+			for i, k := 0, g.in(1, 4); i < k; i++ {
+				cl.Ops = append(cl.Ops, Op{K: "decode", N: int(g.id())})
+			}
+			sc.Clients = append(sc.Clients, cl)
+		}
+		return sc
+	}
 	if faulty && g.pct(25) {
 		w.Fault = []string{"value-err", "watch-err", "both-alias"}[g.r.IntN(3)]
 		if w.Fault == "both-alias" && !contains(w.Manglers, "alias") {
@@ -467,6 +483,88 @@ func (r *wrapRun) releasedMeanwhile(err error) bool {
 
 func serialW(s dials.CfgSerial[CfgWrap]) uint64 { return reflect.ValueOf(s).FieldByName("s").Uint() }
 
+// yieldMangler passes every field through unchanged; its Mangle is a
+// scheduling point, so that another task can run in the middle of a
+// Transformer's TranslateType (in a real process goroutines are preempted
+// anywhere; the simulator only switches at its yields).
+type yieldMangler struct{}
+
+func (yieldMangler) Mangle(sf reflect.StructField) ([]reflect.StructField, error) {
+	simrt.Yield("mangle")
+	return []reflect.StructField{sf}, nil
+}
+
+func (yieldMangler) Unmangle(_ reflect.StructField, vs []transform.FieldValueTuple) (reflect.Value, error) {
+	return vs[0].Value, nil
+}
+
+func (yieldMangler) ShouldRecurse(reflect.StructField) bool { return false }
+
+// yieldingDecoder is the inner decoder behind the shared transforming decoder:
+// the "document" is a value id; it takes a while to read (a scheduling point),
+// as a real decoder reading a file does.
+type yieldingDecoder struct{}
+
+func (yieldingDecoder) Decode(rd io.Reader, t *dials.Type) (reflect.Value, error) {
+	b, err := io.ReadAll(rd)
+	if err != nil {
+		return reflect.Value{}, err
+	}
+	id, err := strconv.ParseUint(string(b), 10, 64)
+	if err != nil {
+		return reflect.Value{}, err
+	}
+	simrt.Yield("inner.Decode")
+	v := innerValue(t, id, "Stamp", false)
+	simrt.Yield("inner.Decode-done")
+	return v, nil
+}
+
+// runSharedDecoder: several tasks decode through ONE transforming decoder
+// value; each result must be the document's data, whatever the others do.
+func runSharedDecoder(sc *Scenario, r *wrapRun, s *simrt.Sim) {
+	names := sc.Wrap.Manglers
+	dec := sourcewrap.NewTransformingDecoder(yieldingDecoder{}, append([]transform.Mangler{yieldMangler{}}, manglersFor(names)...)...)
+	typ := dials.NewType(ptrify.Pointerify(reflect.TypeOf(CfgWrap{}), reflect.ValueOf(CfgWrap{})))
+	for ci := range sc.Clients {
+		c := &sc.Clients[ci]
+		r.clients++
+		s.Spawn(c.Name, func() {
+			defer func() { r.done++ }()
+			for i := range c.Ops {
+				id := uint64(c.Ops[i].N)
+				got, err := dec.Decode(strings.NewReader(strconv.FormatUint(id, 10)), typ)
+				r.probes["decode-through-a-shared-transforming-decoder"]++
+				if err != nil {
+					r.fail("C20.shared-decoder", "%s: decoding document %d through the shared transforming decoder (manglers %v) failed: %v", c.Name, id, names, err)
+					continue
+				}
+				want, werr := nativeValue(typ, names, id, "Stamp")
+				if werr != nil {
+					panic(werr)
+				}
+				if got.Kind() == reflect.Ptr {
+					got = got.Elem()
+				}
+				if want.Kind() == reflect.Ptr {
+					want = want.Elem()
+				}
+				if a, b := render(got.Interface()), render(want.Interface()); a != b {
+					r.fail("C20.shared-decoder", "%s: document %d decoded through the shared transforming decoder (manglers %v) while other decodes were under way\n got:  %s\n want: %s", c.Name, id, names, a, b)
+				}
+			}
+		})
+	}
+	reason := s.Run(sc.MaxSteps, func() bool { return r.done >= r.clients }, time.Time{})
+	for _, c := range s.Crashes {
+		r.fail("crash", "task %s panicked at step %d: %s\n%s", c.Task, c.Step, c.Value, c.Stack)
+	}
+	s.Crashes = nil
+	if reason != simrt.Done {
+		r.fail("stuck", "decoding clients did not finish (%s)", reason)
+	}
+}
+
 func runWrap(sc *Scenario, res *Result, keepLog bool) {
 	w := sc.Wrap
 	r := &wrapRun{sc: sc, probes: map[string]int{}, state: "empty"}
@@ -474,6 +572,23 @@ func runWrap(sc *Scenario, res *Result, keepLog bool) {
 	defer s.Close()
 	r.sim = s
 	s.Record, s.KeepLog, s.Bias = true, keepLog, sc.Bias
+	if w.Kind == "shared-decoder" {
+		r.ctx, r.cancel = context.WithCancel(context.Background())
+		runSharedDecoder(sc, r, s)
+		r.cancel()
+		res.Reason = "decoded"
+		res.Viol = r.viol
+		res.Hash, res.Steps, res.NChoices, res.SimNS, res.States = s.Hash(), s.Step(), s.Choices(), int64(s.Elapsed()), s.States
+		for k, v := range r.probes {
+			res.Probes[k] += v
+		}
+		res.Made = make([]int, len(s.Made))
+		for i, c := range s.Made {
+			res.Made[i] = c.V
+		}
+		res.Log = s.Log
+		return
+	}
 	r.ctx, r.cancel = context.WithCancel(context.Background())
 	mg := manglersFor(w.Manglers)
 	defaults := func() *CfgWrap { return &CfgWrap{N: 1, Str: "default", Tags: []string{"t0"}, In: WIn{Name: "in0"}} }
